@@ -57,3 +57,19 @@ Theorem C17_prefix_col : forall pre s off, ends_line pre -> col_of (pre ++ s) (l
 Proof. exact col_of_prefix. Qed.
 Theorem C17_prefix_text : forall pre s k, ends_line pre -> line_text (pre ++ s) (count_nl pre + k) = line_text s k.
 Proof. exact line_text_prefix. Qed.
+
+(** Which token a statement's node carries as its file_info (the token error messages point at): a
+    token of the statement itself, at a fixed offset from the statement's first token — 0 for
+    instructions, labels, data directives, macro applications, assignments, blocks; 1 for [*=]/[@=]
+    (first token of the expression), [.scope]/[.macro]/[.for]/[.struct] (the name), [.if], [.map],
+    [.include_ips], [{{name}}]; for [.incbin]/[.table] the token AFTER the statement (they raise no
+    located error).  Never a token of a preceding statement. *)
+From A816 Require Import Model.Parser Proofs.ParserFileInfo.
+Theorem C17_file_info : forall ts sub f pos a pos',
+  pdecl ts sub (S f) pos = POk (Some a, pos') ->
+  fi_of a = cur ts (pos + fi_offset ts pos) /\
+  pos + fi_offset ts pos <= pos' /\ (fi_after ts pos = false -> pos + fi_offset ts pos < pos').
+Proof. exact pdecl_file_info. Qed.
+Theorem C17_file_info_not_before : forall ts sub f pos a pos',
+  pdecl ts sub (S f) pos = POk (Some a, pos') -> exists i, pos <= i <= pos' /\ fi_of a = cur ts i.
+Proof. exact pdecl_file_info_not_before. Qed.
